@@ -24,7 +24,7 @@ def build(spec: Dict[str, Any]) -> Any:
         return P.mk_contract(spec["v"], simplify=False)
     if k == "L":
         return P.mk_list(spec["v"])
-    if k == "S":
+    if k in ("S", "F"):
         return spec["v"]
     raise ValueError(k)
 
@@ -82,6 +82,9 @@ def apply_op(op: str, objs: List[Any], cfg: Dict[str, Any]) -> Any:  # noqa: C90
         return a.to_dict()
     if op == "parse":
         return P.ser_mod.polyhedral_termlist_from_string(a)
+    if op == "from_strings":
+        return P.PolyhedralIoContract.from_strings(list(a["a"]), list(a["g"]), list(a["in"]), list(a["out"]),
+                                                   simplify=cfg.get("simplify", False))
     if op == "is_empty":
         return a.is_empty()
     if op == "contains":
@@ -295,23 +298,77 @@ class Session:
         self.rng = rng
         self.pool: List[Tuple[str, Any]] = []   # (type tag, live object)
         self.steps: List[Dict[str, Any]] = []
+        self.twin: Dict[int, int] = {}           # pool index -> index of its look-alike
+        self.queue: List[Tuple[str, List[int], Dict[str, Any], Any]] = []   # follow-up steps on the look-alike
+        self.force_replay = False
 
-    def add(self, tag: str, obj: Any) -> None:
+    def add(self, tag: str, obj: Any) -> int:
         if len(self.pool) < 40:
             self.pool.append((tag, obj))
+            return len(self.pool) - 1
+        i = self.rng.randrange(len(self.pool))
+        self.pool[i] = (tag, obj)
+        j = self.twin.pop(i, None)
+        if j is not None:
+            self.twin.pop(j, None)
+        return i
+
+    def add_twins(self, tag: str, o1: Any, o2: Any) -> None:
+        i = self.add(tag, o1)
+        j = self.add(tag, o2)
+        if i != j and self.pool[i][1] is o1:
+            self.twin[i], self.twin[j] = j, i
+
+    def lookalike_contract(self, c: Any) -> Optional[Any]:
+        """The same contract with one -1 turned into -2 (or back): a different contract that is easily mistaken for the
+        first one by anything that identifies objects by hash() (hash(-1.0) == hash(-2.0)) or by printed text."""
+        n = X.snap_contract(c)
+        spots = [(key, i, v) for key in ("a", "g") for i, t in enumerate(n[key]) for v, x in list(t["c"].items()) + [
+            (None, t["k"])] if x in (-1.0, -2.0)]
+        if not spots:
+            return None
+        key, i, v = self.rng.choice(spots)
+        t = n[key][i]
+        if v is None:
+            t["k"] = -3.0 - t["k"]
         else:
-            self.pool[self.rng.randrange(len(self.pool))] = (tag, obj)
+            t["c"][v] = -3.0 - t["c"][v]
+        try:
+            return P.mk_contract(n, simplify=False)
+        except ValueError:
+            return None
+
+    def spelling_twins(self) -> None:
+        """Two from_strings requests whose texts differ only in white space and mean different things."""
+        rng = self.rng
+        plain, tricky = rng.choice([("y", "e1"), ("x", "E2"), ("b", "e1b"), ("o1", "e2")])
+        m, k = rng.choice([2, 3, 5]), rng.choice([5, 40, 700])
+        base = {"in": ["i1"], "out": [plain, tricky], "a": ["i1 <= 3"]}
+        spaced = dict(base, g=["%s + %d %s <= %d" % (plain, m, tricky, k), "%s - i1 <= 1" % tricky])
+        glued = dict(base, g=["%s + %d%s <= %d" % (plain, m, tricky, k), "%s - i1 <= 1" % tricky])
+        pair = [spaced, glued]
+        rng.shuffle(pair)
+        self.add_twins("F", pair[0], pair[1])
 
     def spec_of(self, tag: str, obj: Any) -> Dict[str, Any]:
         if tag == "C":
             return {"t": "C", "v": X.snap_contract(obj)}
         if tag == "L":
             return {"t": "L", "v": X.snap_list(obj)}
+        if tag == "F":
+            return {"t": "F", "v": obj}
         return {"t": "S", "v": obj}
 
     def fresh_contracts(self) -> None:
         r = self.rng.random()
         try:
+            if self.rng.random() < 0.3:
+                n = gen.rcontract(self.rng, ["i1"], ["o1", "o2"][: self.rng.randint(1, 2)], "int", bounded=True)
+                c = P.mk_contract(n, True)
+                t = self.lookalike_contract(c)
+                if t is not None:
+                    self.add_twins("C", c, t)
+                    return
             if r < 0.4:
                 cc = gen.compose_case(self.rng)
                 for n in (cc["c1"], cc["c2"]):
@@ -338,7 +395,15 @@ class Session:
 
     def plan(self) -> Optional[Tuple[str, List[int], Dict[str, Any]]]:  # noqa: C901
         rng = self.rng
+        self.force_replay = False
+        while self.queue:
+            op, ids, cfg, objs = self.queue.pop(0)
+            if all(i < len(self.pool) and self.pool[i][1] is o for i, o in zip(ids, objs)):
+                self.force_replay = True
+                self.ctx.count("lookalike-follow-ups")
+                return op, ids, cfg
         op = rng.choice(["compose", "compose", "quotient", "merge", "refines", "rename", "copy", "csimplify",
+                         "from_strings", "optimize", "bounds",
                          "lsimplify", "elim_refine", "elim_relax", "lrefines", "lor", "lsub", "optimize", "bounds",
                          "machine_roundtrip", "string_roundtrip", "to_dict", "parse", "is_empty", "contains",
                          "compose_default", "env_impl"])
@@ -380,7 +445,31 @@ class Session:
                 cfg = {"var": rng.choice(vs)}
             elif op in ("machine_roundtrip", "string_roundtrip"):
                 cfg = {"simplify": rng.random() < 0.5}
+            if op in ("optimize", "bounds", "copy", "to_dict", "machine_roundtrip"):
+                tw = [i for i in self.twin if self.pool[i][0] == "C"]
+                if tw and rng.random() < 0.6:
+                    # ask the same question of a contract and then of its look-alike
+                    i = rng.choice(tw)
+                    j = self.twin[i]
+                    c = self.pool[i][1]
+                    vs = [X.vname(v) for v in list(c.inputvars) + list(c.outputvars)]
+                    if op == "optimize":
+                        cfg = {"expr": "%d %s" % (rng.choice([1, 2]), rng.choice(vs)), "maximize": rng.random() < 0.5}
+                    elif op == "bounds":
+                        cfg = {"var": rng.choice(vs)}
+                    self.queue.append((op, [j], dict(cfg), [self.pool[j][1]]))
+                    return op, [i], cfg
             return op, ids, cfg
+        if op == "from_strings":
+            tw = [i for i in self.twin if self.pool[i][0] == "F"]
+            if not tw:
+                self.spelling_twins()
+                return None
+            i = rng.choice(tw)
+            j = self.twin[i]
+            cfg = {"simplify": rng.random() < 0.5}
+            self.queue.append((op, [j], dict(cfg), [self.pool[j][1]]))
+            return op, [i], cfg
         if op in ("lsimplify", "elim_refine", "elim_relax", "lrefines", "lor", "lsub", "env_impl"):
             if op == "env_impl":
                 ic = self.pick("C", 1, False)
@@ -499,7 +588,7 @@ class Session:
                                       "changed a pool member" % op, case)
                     ctx.count("aliasing-checks")
         # (iii) history independence: the same step in a pristine interpreter state
-        if _zygote is not None and self.rng.random() < replay_prob:
+        if _zygote is not None and (self.force_replay or self.rng.random() < replay_prob):
             res = _zygote.ask({k: step[k] for k in ("op", "operands", "cfg")})
             if res is None or "replay-error" in (res or {}):
                 ctx.count("pristine-replay-error")
